@@ -7,5 +7,5 @@ MCShapes == AllSessionShapes
 MCScript == IF MCLong THEN <<"SetObj", "NewEmpty", "CopyTo", "FreshObj", "CopyFrom">> ELSE <<"SetObj", "NewEmpty", "CopyTo", "FreshObj", "CopyFrom">>
 MCProps == {"C02", "C03", "C04", "C07", "C20"}
 ASSUME PrintT("SHAPES " \o ToJson(MCShapes))
-INSTANCE Session WITH Shapes <- MCShapes, Script <- MCScript, Deep <- MCDeep, Props <- MCProps, ObjMode <- "all", RawMode <- "plans"
+INSTANCE Session WITH Shapes <- MCShapes, Script <- MCScript, Deep <- MCDeep, Props <- MCProps, ObjMode <- "all", RawMode <- "plans", EmptyMode <- "flags"
 ====
